@@ -222,6 +222,15 @@ def anchor_attrs(ctx, cls_name, *attrs):
     for a in attrs:
         ws = [1 for g, n, kind in index(ctx.repo).writers(a) if g.cls is not None and cls_name in g.cls.base_names()]
         if not ws:
+            # the name may live on as a read/write property over another representation (an enum-valued mode behind a boolean name)
+            try:
+                for g in ctx.repo.all_functions():
+                    if g.cls is not None and g.cls.name == cls_name and g.name == a and any(str(d).endswith(f"{a}.setter") for d in getattr(g, "decorators", ())):
+                        ws = [1]
+                        break
+            except Exception:
+                pass
+        if not ws:
             raise AnalysisError(f"anchor vanished: {cls_name}.{a} is never assigned (state attribute renamed or removed?)")
 
 
